@@ -1,21 +1,30 @@
 """C06, share of pipe.Throttling: no panic; delivered is a prefix of the input; once the input is
 closed and the output drained the data goroutine exits and `out` closes (the pacer may live until
 cancel); once cancelled and the input closed both goroutines exit and `out` closes even if nobody
-receives. Lock-step on the virtual clock against `oracle throttle`, cancel and close at every point."""
+receives. Lock-step on the virtual clock against `oracle throttle`, cancel and close at every point.
+
+Interval <= 0 (`gen_nonpositive`, used by this share of C06 only): `time.After(d)` with d <= 0 fires at once, the
+stage degenerates to a plain copy and nothing about a rate is claimed (C13's generators and bound never see these
+scripts); what C06 states — no panic in a library goroutine, prefix, close after drain, exit after cancel — is
+evaluated by the same direct oracle. The model takes part: interval 0 is an ordinary instance of Go/Throttle.lean
+(a timer due at once is a process move), a negative interval is read by the driver as interval 0."""
 import vlib, lockstep as ls
 
 STAGE = "Throttling"
 
 
-def gen_script(rng, maxlen=6):
+NONPOSITIVE = [0, 0, -1, -250]
+
+
+def gen_script(rng, maxlen=6, ivals=(10, 100)):
     ops, cap = rng.randrange(1, 4), rng.randrange(0, 3)
-    ival = rng.choice([10, 100])
+    ival = rng.choice(list(ivals))
     cfg = "stage=%s cap=%d ops=%d ival=%d" % (STAGE, cap, ops, ival)
     n = rng.randrange(0, maxlen + 1)
     xs = rng.sample(range(1, 40), n)
     sends = ["s%d" % x for x in xs] + ["c0"]
     recvs = ["r0"] * rng.randrange(0, n + 2)
-    ticks = ["t%d" % rng.choice([1, ival // 2, ival, ival + 1, 2 * ival]) for _ in range(rng.randrange(0, 4))]
+    ticks = ["t%d" % max(0, rng.choice([1, ival // 2, ival, ival + 1, 2 * ival])) for _ in range(rng.randrange(0, 4))]
     body = ls.interleave(rng, [sends, recvs, ticks])
     if rng.random() < 0.3:
         body = [m for m in body if m[0] != "c"]
@@ -29,7 +38,7 @@ def gen_script(rng, maxlen=6):
         tail += ["x", "c0", "z"]
     tail += ["c0"]
     for _ in range((2 * cap + 1) // ops + 2):
-        tail += ["r0"] * (2 * ops + cap + 2) + ["t%d" % ival]
+        tail += ["r0"] * (2 * ops + cap + 2) + ["t%d" % (ival if ival > 0 else 1)]
     tail += ["r0", "r0", "z"]
     return cfg + " | " + " ".join(body + tail)
 
@@ -52,6 +61,27 @@ def exhaustive():
 
 def gen_scripts(rng, n):
     return [gen_script(rng) for _ in range(n)]
+
+
+def gen_nonpositive(rng, n):
+    """interval 0 and negative intervals: random scripts of the same shape + cancel and close at every point of a small one"""
+    return [gen_script(rng, ivals=NONPOSITIVE) for _ in range(n)]
+
+
+def exhaustive_nonpositive(ivals=(0, -1)):
+    out = []
+    for ival in ivals:
+        for ops in (1, 2):
+            for cap in (0, 1):
+                base = ["s3", "r0", "s4", "t1", "r0", "s5", "r0"]
+                cfg = "stage=%s cap=%d ops=%d ival=%d" % (STAGE, cap, ops, ival)
+                for ci in range(0, len(base) + 1, 2):
+                    for xi in range(0, len(base) + 2, 2):
+                        mv = list(base)
+                        mv.insert(ci, "c0")
+                        mv.insert(xi, "x")
+                        out.append(cfg + " | " + " ".join(mv + ["x", "c0", "z"] + ["r0"] * 4 + ["z"]))
+    return out
 
 
 def evaluate(script, tr):
@@ -111,4 +141,11 @@ def run_extra(ctx):
     scripts = gen_scripts(ctx.rng, n)
     if ctx.thorough():
         scripts += exhaustive()
-    ls.judge(ctx, scripts, evaluate, sub="throttle")
+    # interval <= 0: the stage is a plain copy; C06's statement only (no rate bound is claimed or evaluated)
+    np = gen_nonpositive(ctx.rng, 800 if ctx.thorough() else 120) + exhaustive_nonpositive((0, -1, -250) if ctx.thorough() else (0, -1))
+    ctx.cov["rule"] += ("; Throttling scripts also with interval 0 and negative intervals (distribution `throttle_interval`): time.After fires at once, the stage is a plain copy; "
+                        "for those only C06's statement is evaluated (no panic, prefix, close after drain, exit after cancel), no rate bound; the model takes part with interval 0 "
+                        "(a negative interval is read as 0 by the oracle driver)")
+    for s in scripts + np:
+        ctx.hist("throttle_interval", ls.parse_cfg(s)["ival"])
+    ls.judge(ctx, scripts + np, evaluate, sub="throttle")
